@@ -168,7 +168,8 @@ def state_limits(m):
     out = []
     for d in m["state_decl"]:
         if "range" in d:
-            out.extend([(0, None)] * len(d["names"]))
+            lims = d.get("lims")        # a range-style name may carry one limits tuple that applies to every expanded state
+            out.extend([(0, None) if lims is None else (lims[0], lims[1])] * len(d["names"]))
         else:
             lims = d.get("lims")
             out.append((0, None) if lims is None else (lims[0], lims[1]))
